@@ -19,131 +19,18 @@ import (
 	"verif/lib/world"
 )
 
-type cfg struct {
-	Name     string     `json:"name"`
-	Conf     world.Conf `json:"conf"`
-	StartPub bool       `json:"start_pub"`
-	Alphabet []string   `json:"alphabet"`
-	Frame    int        `json:"frame_size"`
-}
+type cfg = sw.SysOpts
 
 type replay struct {
 	Cfg   cfg      `json:"cfg"`
 	Trace []string `json:"trace"`
 }
 
-type sys struct {
-	c     cfg
-	x     *sw.X
-	merge int
-	infra error
-}
+func forwardable(m sw.PubMsg) bool { return sw.Forwardable(m) }
 
-func newSys(c cfg) *sys {
-	conf := world.Conf{}
-	for k, v := range c.Conf {
-		conf[k] = v
-	}
-	s := &sys{c: c, x: sw.New(conf)}
-	if v, ok := conf["rtmp.merge_write_size"]; ok {
-		s.merge = toInt(v)
-	}
-	if c.Frame > 0 {
-		s.x.FrameSize = c.Frame
-	}
-	if c.StartPub {
-		if ok, err := s.x.PubArrive(); err != nil || !ok {
-			s.infra = fmt.Errorf("initial publisher not accepted: %v", err)
-		}
-	}
-	return s
-}
+type sys = sw.Sys
 
-func toInt(v interface{}) int {
-	switch x := v.(type) {
-	case int:
-		return x
-	case float64:
-		return int(x)
-	}
-	return 0
-}
-
-func (s *sys) Close() { s.x.Close() }
-
-func (s *sys) live() []*sw.Consumer {
-	var l []*sw.Consumer
-	for _, c := range s.x.Consumers {
-		if !c.Left {
-			l = append(l, c)
-		}
-	}
-	return l
-}
-
-func (s *sys) Enabled() []string {
-	var ev []string
-	if s.x.PubAlive {
-		for _, k := range s.c.Alphabet {
-			if strings.HasPrefix(k, "P:") {
-				ev = append(ev, k)
-			}
-		}
-	}
-	l := s.live()
-	if len(l) < 3 {
-		for _, k := range s.c.Alphabet {
-			if strings.HasPrefix(k, "J:") {
-				ev = append(ev, k)
-			}
-		}
-	}
-	if len(l) > 0 {
-		ev = append(ev, "L:oldest")
-		if len(l) > 1 {
-			ev = append(ev, "L:newest")
-		}
-	}
-	for _, k := range s.c.Alphabet {
-		if k == "PubLeave" && s.x.PubAlive {
-			ev = append(ev, k)
-		}
-		if k == "PubArrive" && !s.x.PubAlive && s.x.Inc < 2 {
-			ev = append(ev, k)
-		}
-	}
-	return ev
-}
-
-func (s *sys) Apply(ev string) error {
-	if s.infra != nil {
-		return s.infra
-	}
-	switch {
-	case strings.HasPrefix(ev, "P:"):
-		_, err := s.x.Publish(ev[2:])
-		return err
-	case strings.HasPrefix(ev, "J:"):
-		_, err := s.x.Join(ev[2:])
-		return err
-	case ev == "L:oldest":
-		return s.x.Leave(s.live()[0])
-	case ev == "L:newest":
-		l := s.live()
-		return s.x.Leave(l[len(l)-1])
-	case ev == "PubLeave":
-		return s.x.PubLeave()
-	case ev == "PubArrive":
-		ok, err := s.x.PubArrive()
-		if err == nil && !ok {
-			return fmt.Errorf("publisher refused although the stream has no input")
-		}
-		return err
-	}
-	return fmt.Errorf("unknown event %s", ev)
-}
-
-func forwardable(m sw.PubMsg) bool { return len(m.Payload) > 0 }
+func newSys(c cfg) *sys { return sw.NewSys(c, check) }
 
 // expectedPayload is the only permitted representation difference: metadata without @setDataFrame for players.
 func expectedPayload(m sw.PubMsg) []byte {
@@ -153,9 +40,9 @@ func expectedPayload(m sw.PubMsg) []byte {
 	return m.Payload
 }
 
-func (s *sys) checkSeq(who string, kind string, recv []sw.Recv, join int, attached bool, framingErr string, lagBytes int) []seqx.Viol {
+func checkSeq(s *sys, who string, kind string, recv []sw.Recv, join int, attached bool, framingErr string, lagBytes int) []seqx.Viol {
 	var vs []seqx.Viol
-	P := s.x.Published
+	P := s.X.Published
 	add := func(key, f string, a ...interface{}) {
 		vs = append(vs, seqx.Viol{Key: key + "/" + kind, What: who + ": " + fmt.Sprintf(f, a...)})
 	}
@@ -232,7 +119,7 @@ func (s *sys) checkSeq(who string, kind string, recv []sw.Recv, join int, attach
 		}
 		// the run ends only when the consumer or the publisher leaves: it must reach the last
 		// message of the incarnation, up to what merge-write may still hold back
-		stillRunning := attached || inc < s.x.Inc || !s.x.PubAlive
+		stillRunning := attached || inc < s.X.Inc || !s.X.PubAlive
 		_ = stillRunning
 		if attached {
 			pend := 0
@@ -249,30 +136,30 @@ func (s *sys) checkSeq(who string, kind string, recv []sw.Recv, join int, attach
 	return vs
 }
 
-func (s *sys) Check() []seqx.Viol {
+func check(s *sys) []seqx.Viol {
 	var vs []seqx.Viol
-	for _, c := range s.x.Consumers {
+	for _, c := range s.X.Consumers {
 		lag := 0
 		if c.Kind == "rtmp" {
-			lag = s.merge
+			lag = s.Merge
 		}
-		vs = append(vs, s.checkSeq(fmt.Sprintf("consumer %d (%s, joined at #%d)", c.ID, c.Kind, c.Join), c.Kind, c.Recv, c.Join, !c.Left, c.Err, lag)...)
+		vs = append(vs, checkSeq(s, fmt.Sprintf("consumer %d (%s, joined at #%d)", c.ID, c.Kind, c.Join), c.Kind, c.Recv, c.Join, !c.Left, c.Err, lag)...)
 	}
 	// FLV recording: one file per incarnation, every forwardable message in order
-	files, recs, errs := s.x.RecordFlv()
+	files, recs, errs := s.X.RecordFlv()
 	for _, e := range errs {
 		vs = append(vs, seqx.Viol{Key: "framing/record", What: "record file does not parse: " + e})
 	}
-	if len(files) > 0 && s.x.Inc == 1 {
+	if len(files) > 0 && s.X.Inc == 1 {
 		var all []sw.Recv
 		for _, r := range recs {
 			all = append(all, r...)
 		}
-		vs = append(vs, s.checkSeq("flv record "+strings.Join(files, ","), "record", all, 0, true, "", 0)...)
+		vs = append(vs, checkSeq(s, "flv record "+strings.Join(files, ","), "record", all, 0, true, "", 0)...)
 		if len(all) > 0 && len(files) == 1 {
 			// the record starts with the publisher's first forwardable message
 			first := -1
-			for i, m := range s.x.Published {
+			for i, m := range s.X.Published {
 				if forwardable(m) {
 					first = i
 					break
@@ -284,44 +171,6 @@ func (s *sys) Check() []seqx.Viol {
 		}
 	}
 	return vs
-}
-
-func (s *sys) Fingerprint() string {
-	var sb strings.Builder
-	sb.WriteString(s.x.W.Dump())
-	fmt.Fprintf(&sb, " |pub=%v inc=%d", s.x.PubAlive, s.x.Inc)
-	P := s.x.Published
-	// the kind of the last published message matters for nothing in lal; monitor state per consumer:
-	for _, c := range s.x.Consumers {
-		if c.Left {
-			continue
-		}
-		lastIdx := -1
-		hasLive := false
-		for _, r := range c.Recv {
-			if r.Known && r.Idx >= c.Join {
-				hasLive = true
-				lastIdx = r.Idx
-			}
-		}
-		pend := 0
-		if hasLive {
-			for i := lastIdx + 1; i < len(P); i++ {
-				if forwardable(P[i]) && P[i].Inc == P[lastIdx].Inc {
-					pend++
-				}
-			}
-		}
-		fmt.Fprintf(&sb, " |c:%s live=%v pend=%d n=%d", c.Kind, hasLive, pend, minI(len(c.Recv), 1))
-	}
-	return sb.String()
-}
-
-func minI(a, b int) int {
-	if a < b {
-		return a
-	}
-	return b
 }
 
 func configs(r *vk.Run) []cfg {
@@ -389,7 +238,7 @@ func shapeSweep(r *vk.Run) {
 			r.Violation("infra/shape", fmt.Sprintf("shape case %+v: %v", j, err), replay{c, trace})
 		}
 		for _, k := range []string{"rtmp", "flv", "wsflv"} {
-			if _, err := s.x.Join(k); err != nil {
+			if _, err := s.X.Join(k); err != nil {
 				fail(err)
 				return
 			}
@@ -400,20 +249,20 @@ func shapeSweep(r *vk.Run) {
 			if n >= 4 {
 				ts = j.ts[1]
 			}
-			m := sw.MakeMsg(k, len(s.x.Published), ts, j.l)
-			if err := s.x.PublishMsg(m); err != nil {
+			m := sw.MakeMsg(k, len(s.X.Published), ts, j.l)
+			if err := s.X.PublishMsg(m); err != nil {
 				fail(err)
 				return
 			}
 			r.Eval(1)
 		}
 		// a late joiner gets the cached GOP with the same bytes
-		if _, err := s.x.Join("rtmp"); err != nil {
+		if _, err := s.X.Join("rtmp"); err != nil {
 			fail(err)
 			return
 		}
-		m := sw.MakeMsg("inter", len(s.x.Published), j.ts[1], j.l)
-		if err := s.x.PublishMsg(m); err != nil {
+		m := sw.MakeMsg("inter", len(s.X.Published), j.ts[1], j.l)
+		if err := s.X.PublishMsg(m); err != nil {
 			fail(err)
 			return
 		}
